@@ -17,7 +17,7 @@ class Event:
     waitingHandlers = 0
 
     @classmethod
-    def create(cls, _name, *args, **kwargs):
+    def create(cls, _name, /, *args, **kwargs):
         return type(cls)(_name, (cls,), {})(*args, **kwargs)
 
     def child(self, name, *args, **kwargs):
